@@ -39,6 +39,11 @@ pub fn flat(s: &ConfigState, with_buckets: bool) -> Flat {
         for b in list {
             m.insert(format!("backend/{k}/{}@{}", b.backend_id, b.address), j(b));
         }
+        // the position of each backend in its list is part of the configuration: it is the order
+        // generate_requests emits them in, hence the order a worker's round robin visits them
+        if list.len() > 1 {
+            m.insert(format!("backend-order/{k}"), list.iter().map(|b| format!("{}@{}", b.backend_id, b.address)).collect::<Vec<_>>().join(","));
+        }
     }
     for (k, v) in &s.http_listeners {
         m.insert(format!("http_listener/{k}"), j(v));
@@ -201,10 +206,12 @@ pub fn named_paths(r: &Request) -> Vec<String> {
         AddBackend(b) => vec![
             format!("backend/{}/{}@{}", b.cluster_id, b.backend_id, sa(&b.address)),
             format!("bucket/backends/{}", b.cluster_id),
+            format!("backend-order/{}", b.cluster_id),
         ],
         RemoveBackend(b) => vec![
             format!("backend/{}/{}@{}", b.cluster_id, b.backend_id, sa(&b.address)),
             format!("bucket/backends/{}", b.cluster_id),
+            format!("backend-order/{}", b.cluster_id),
         ],
         AddCertificate(a) => {
             let addr = sa(&a.address);
